@@ -85,6 +85,11 @@ impl<P: Prefix, T> PrefixMap<P, T> {
         self.wf_shape() && self.wf_free() && self.wf_count()
     }
 
+    /// [C15] canonical shape (holds as long as only insert / Entry API / remove / retain / clear were used)
+    pub open spec fn canon(&self) -> bool {
+        tcanon(self.tab(), self.live())
+    }
+
     pub open spec fn content(&self) -> IMap<Seq<bool>, (P, T)> {
         content(self.tab(), self.live())
     }
